@@ -311,8 +311,9 @@ def _b_abs(I, a, k):
             return I.binop(ast.Sub, 0, v)
         return v
     if isinstance(v, STimedelta):
-        if I.branch(I.term(v.total) < 0):
-            return STimedelta(I.binop(ast.Sub, 0, v.total))
+        from . import libdt
+        if I.branch(I.term(libdt.td_total(I, v)) < 0):
+            return STimedelta(I.binop(ast.Sub, 0, v.days), I.binop(ast.Sub, 0, v.secs))
         return v
     return abs(v)
 
@@ -691,6 +692,11 @@ def call_method(I, recv, name, args, kwargs):
             return getattr(recv, name)(*[set(I.iterate_concrete(x)) for x in args])
     if isinstance(recv, SSeq):
         return seq_method(I, recv, name, args, kwargs)
+    if isinstance(recv, SArr):
+        if name == 'append':
+            L.arr_append(I, recv, args[0])
+            return None
+        raise Unsupported('symbolic list method ' + name)
     if isinstance(recv, L.PyDecimal):
         raise Unsupported('Decimal.' + name)
     if isinstance(recv, L.SMap):
@@ -980,7 +986,14 @@ def dict_method(I, d, name, args, kwargs):
 def seq_method(I, s, name, args, kwargs):
     L = _L()
     if name == 'append':
-        raise Unsupported('append on a symbolic sequence must go through the owning variable')
+        s.t = z3.Concat(s.t, z3.Unit(L.elem_term(I, args[0], s.elem)))
+        return None
+    if name == 'extend':
+        o = I.resolve(args[0])
+        if isinstance(o, list):
+            o = L.seq_of_list(I, o, s.elem)
+        s.t = z3.Concat(s.t, o.t)
+        return None
     raise Unsupported('seq.' + name)
 
 
@@ -1002,13 +1015,18 @@ def fresh_like(I, v, hint):
     if isinstance(v, SDateTime):
         return libdt.fresh_datetime(I, hint)
     if isinstance(v, STimedelta):
-        return STimedelta(I.fresh(INT, hint))
+        return STimedelta(I.fresh(INT, hint + '_days'), I.fresh(INT, hint + '_secs'))
     if isinstance(v, SSeq):
-        return SSeq(z3.Const(I.p.fresh_name(hint), L.seq_sort(v.elem)), v.elem)
+        v.t = z3.Const(I.p.fresh_name(hint), L.seq_sort(v.elem))     # in place: list identity is kept
+        return v
     if isinstance(v, SArr):
         n = I.fresh(INT, hint + '_n')
         I.p.assume(n.t >= 0)
-        return SArr(z3.Const(I.p.fresh_name(hint), v.arr.sort()), n, v.elem)
+        v.arr = z3.Const(I.p.fresh_name(hint), v.arr.sort())
+        if v.arr2 is not None:
+            v.arr2 = z3.Const(I.p.fresh_name(hint + '_s'), v.arr2.sort())
+        v.n = n
+        return v
     if isinstance(v, SRecList):
         n = I.fresh(INT, hint + '_n')
         I.p.assume(n.t >= 0)
